@@ -34,6 +34,7 @@ vars == <<g, closed, sreg, hist, fin>>
 (* S is instantiated and closed by the history (InstS / CloseS); its start function runs during instantiation.
    g["S"] is unused; closed["S"] is the exit code of the S instance being instantiated. *)
 Insts == {"M", "A", "S"}
+TypedFns == {"w64", "wf64", "wf32", "wide"}
 Ok(v) == [k |-> "ok", v |-> v]
 Fail(k, v) == [k |-> k, v |-> v]
 IsOk(r) == r.k = "ok"
@@ -60,6 +61,9 @@ Guest(i, f, x, st0, d, ch) ==
   LET me == <<f>> \o ch
       st == Bump(Ev(st0, "before", f, x, me), IF f = "peer" THEN "A" ELSE i, IF f = "mark" THEN x ELSE 1) IN
   CASE f = "mark"    -> Leave(f, [r |-> Ok(st.g[i]), st |-> st])
+    [] f \in TypedFns -> \* parameters and results of other types than i32 (i64, f64, f32, a mixed five-parameter / three-result
+                        \* signature): the integer x travels encoded in them and comes back as x + 3
+                        Leave(f, [r |-> Ok(x + 3), st |-> st])
     [] f = "brret"   -> \* leaves through a br_table arm that targets the function label (x >= 1) or an inner block
                         Leave(f, [r |-> Ok(IF x = 0 THEN 21 ELSE 20), st |-> st])
     [] f = "trap"    -> Leave(f, [r |-> Fail("trap", x), st |-> st])     \* x selects the trap kind
